@@ -116,6 +116,10 @@ func (h *Header) Load(buf *[headerSize]byte) error {
 	if buf[20] != Version {
 		return fmt.Errorf("unsupported index version: want %d, got %d", Version, buf[20])
 	}
+	// BucketHash divides by the number of buckets.
+	if h.NumBuckets == 0 {
+		return fmt.Errorf("number of buckets not set")
+	}
 	// 11 bytes to spare for now. Might use it in the future.
 	// Force to zero for now.
 	for _, b := range buf[21:32] {
